@@ -1044,26 +1044,44 @@ def c01_c04(v, tier, pid):
 def c15(v, tier):
     ctx = Ctx("C15", tier)
     tftpd = ctx.bins["release"]["tftpd"]
-    evals = 0
-    sb = ctx.sandbox("c15")
     n = 65538
     content = N.keyed_content("c15", (n - 1) * 8 + 3)
-    write(os.path.join(sb["srv"], "big.bin"), content)
-    with N.Server(tftpd, sb["srv"], logdir=sb["logs"]) as srv:
-        for w, drops in ((7, {65535, 65536}), (64, {65534, 65537}), (1, set())):
-            evals += 1
-            tr = N.download(srv.addr, "big.bin", [("blksize", 8), ("windowsize", w), ("timeout", 1)], drop_blocks=drops, timeout=2.5)
-            if not (tr.completed and bytes(tr.data) == content):
-                v.violation("C15/net/download", f"download of {n} blocks (blksize 8, windowsize {w}, emulated loss at {sorted(drops)}) completed={tr.completed} len={len(tr.data)} note={tr.note}", {"engine": "net", "windowsize": w, "drops": sorted(drops)})
-        for w, drops in ((7, {65536}), (1, set())):
-            evals += 1
-            tr = N.upload(srv.addr, f"bigup{w}.bin", content, [("blksize", 8), ("windowsize", w), ("timeout", 1)], drop_first_send=drops, timeout=2.5)
-            time.sleep(0.1)
-            p = os.path.join(sb["srv"], f"bigup{w}.bin")
-            got = open(p, "rb").read() if os.path.exists(p) else None
-            if not (tr.completed and got == content):
-                v.violation("C15/net/upload", f"upload of {n} blocks (windowsize {w}, withheld {sorted(drops)}) completed={tr.completed} note={tr.note}", {"engine": "net", "windowsize": w, "drops": sorted(drops)})
-    return {"net_wrap_transfers": evals}, evals
+    exact = N.keyed_content("c15x", 65535 * 8)          # 65536 blocks: the final (empty) block carries number 0
+
+    def one_server(single):
+        sb = ctx.sandbox("c15")
+        write(os.path.join(sb["srv"], "big.bin"), content)
+        write(os.path.join(sb["srv"], "exact.bin"), exact)
+        mode = "single" if single else "multi"
+        found, evals = [], 0
+        with N.Server(tftpd, sb["srv"], single=single, logdir=sb["logs"]) as srv:
+            downs = [("big.bin", content, 7, {65535, 65536}), ("big.bin", content, 64, {65534, 65537}), ("big.bin", content, 1, set())]
+            if single:
+                # the listener routes by endpoint for the whole transfer: windows whose ACK numbers repeat the final block's
+                # wire number (2 resp. 0) long before the end
+                downs = [("big.bin", content, 2, set()), ("exact.bin", exact, 16, set()), ("big.bin", content, 1, {65536}), ("exact.bin", exact, 5, {65535})]
+            for name, want, w, drops in downs:
+                evals += 1
+                tr = N.download(srv.addr, name, [("blksize", 8), ("windowsize", w), ("timeout", 1)], drop_blocks=drops, timeout=2.5)
+                if not (tr.completed and bytes(tr.data) == want):
+                    found.append(("C15/net/download", f"{mode}-port: download of {len(want) // 8 + 1} blocks (blksize 8, windowsize {w}, emulated loss at {sorted(drops)}) completed={tr.completed} len={len(tr.data)} note={tr.note} error={tr.error}", {"engine": "net", "single_port": single, "file": name, "windowsize": w, "drops": sorted(drops)}))
+            for w, drops in ((7, {65536}), (1, set())) if not single else ((4, {65537}),):
+                evals += 1
+                tr = N.upload(srv.addr, f"bigup{w}.bin", content, [("blksize", 8), ("windowsize", w), ("timeout", 1)], drop_first_send=drops, timeout=2.5)
+                time.sleep(0.1)
+                p = os.path.join(sb["srv"], f"bigup{w}.bin")
+                got = open(p, "rb").read() if os.path.exists(p) else None
+                if not (tr.completed and got == content):
+                    found.append(("C15/net/upload", f"{mode}-port: upload of {n} blocks (windowsize {w}, withheld {sorted(drops)}) completed={tr.completed} note={tr.note}", {"engine": "net", "single_port": single, "windowsize": w, "drops": sorted(drops)}))
+        return found, evals
+
+    total = 0
+    with concurrent.futures.ThreadPoolExecutor(max_workers=2) as ex:
+        for found, evals in ex.map(one_server, (False, True)):
+            total += evals
+            for sig, what, rp in found:
+                v.violation(sig, what, rp)
+    return {"net_wrap_transfers": total}, total
 
 
 EXT = {"C02": c02, "C08": c08, "C13": c13, "C16": c16, "C07": c07, "C01": lambda v, t: c01_c04(v, t, "C01"), "C04": lambda v, t: c01_c04(v, t, "C04"), "C15": c15}
